@@ -19,4 +19,4 @@ def units(tier):
         us.append(u)
     return us
 def instances(tier):
-    return [Inst('c18_' + op[6:], op, params=(0, 2), unwind=400, unwindset={'vp_memcpy.0': 200, 'vp_buf.0': 30}, timeout=600, mem_gb=6, recursion=3) for op in OPS]
+    return [Inst('c18_' + op[6:], op, params=(0, 2), unwind=400, unwindset={'vp_memcpy.0': 2600, 'c18_same.0': 2600, 'vp_buf.0': 30}, timeout=600, mem_gb=6, recursion=3) for op in OPS]
